@@ -32,6 +32,24 @@ type querySpec struct {
 	Props   []string
 }
 
+// SET GLOBAL statements: the exact set of variables assigned and (a regular expression for) their values. A statement that
+// assigns one more variable is another statement (e.g. "also reset the ack count when the plugin is switched on").
+var setGlobals = map[string]map[string]string{
+	"set_readonly":                       {"super_read_only": "1|on"},
+	"set_readonly_no_super":              {"read_only": "1|on", "super_read_only": "0|off"},
+	"set_writable":                       {"read_only": "0|off"},
+	"semisync_set_master":                {"rpl_semi_sync_master_enabled": "1|on", "rpl_semi_sync_slave_enabled": "0|off"},
+	"semisync_set_slave":                 {"rpl_semi_sync_slave_enabled": "1|on", "rpl_semi_sync_master_enabled": "0|off"},
+	"semisync_disable":                   {"rpl_semi_sync_slave_enabled": "0|off", "rpl_semi_sync_master_enabled": "0|off"},
+	"set_semisync_wait_slave_count":      {"rpl_semi_sync_master_wait_for_slave_count": ":wait_slave_count"},
+	"enable_offline_mode":                {"offline_mode": "on|1"},
+	"disable_offline_mode":               {"offline_mode": "off|0"},
+	"set_innodb_flush_log_at_trx_commit": {"innodb_flush_log_at_trx_commit": ":level"},
+	"set_sync_binlog":                    {"sync_binlog": ":sync_binlog"},
+}
+
+var assignRe = regexp.MustCompile(`([a-z_@.]+) = ([^,]+)`)
+
 var rw = []string{"C01", "C06", "C08", "C10", "C18"}
 
 var queryTable = []querySpec{
@@ -53,7 +71,7 @@ var queryTable = []querySpec{
 	{"change_master", []string{`master_host = :host\b`, `master_port = :port\b`, `master_auto_position = 1`, `for channel :channel$`}, nil, []string{"C01", "C10", "C16"}},
 	{"change_source", []string{`source_host = :host\b`, `source_port = :port\b`, `source_auto_position = 1`, `for channel :channel$`}, nil, []string{"C01", "C10", "C16"}},
 	{"semisync_status", []string{`@@rpl_semi_sync_master_enabled as masterenabled\b`, `@@rpl_semi_sync_slave_enabled as slaveenabled\b`, `@@rpl_semi_sync_master_wait_for_slave_count as waitslavecount\b`}, nil, []string{"C04", "C08", "C18"}},
-	{"semisync_set_master", []string{`rpl_semi_sync_master_enabled = (1|on)`, `rpl_semi_sync_slave_enabled = (0|off)`}, nil, []string{"C04", "C10"}},
+	{"semisync_set_master", []string{`rpl_semi_sync_master_enabled = (1|on)`, `rpl_semi_sync_slave_enabled = (0|off)`}, nil, []string{"C04", "C10", "C12"}},
 	{"semisync_set_slave", []string{`rpl_semi_sync_slave_enabled = (1|on)`, `rpl_semi_sync_master_enabled = (0|off)`}, nil, []string{"C04", "C10"}},
 	{"semisync_disable", []string{`rpl_semi_sync_slave_enabled = (0|off)`, `rpl_semi_sync_master_enabled = (0|off)`}, nil, []string{"C02", "C04", "C08"}},
 	{"set_semisync_wait_slave_count", []string{`^set global rpl_semi_sync_master_wait_for_slave_count = :wait_slave_count$`}, nil, []string{"C04", "C12"}},
@@ -72,8 +90,8 @@ var queryTable = []querySpec{
 	{"update_repl_mon", []string{`where @@read_only = 0`, `on duplicate key update ts = current_timestamp\(3\)`}, nil, []string{"C01"}},
 	{"kill_query", []string{`^kill :kill_id$`}, nil, []string{"C08", "C18"}},
 	{"get_process_ids", []string{`from information_schema\.processlist`, `user not in \(\?\)`, `command != 'killed'`}, nil, []string{"C08", "C18"}},
-	{"slave_status", []string{`^show slave status for channel :channel$`}, nil, []string{"C01", "C04", "C08", "C16"}},
-	{"replica_status", []string{`^show replica status for channel :channel$`}, nil, []string{"C01", "C04", "C08", "C16"}},
+	{"slave_status", []string{`^show slave status for channel :channel$`}, nil, []string{"C01", "C04", "C08", "C10", "C11", "C16"}},
+	{"replica_status", []string{`^show replica status for channel :channel$`}, nil, []string{"C01", "C04", "C08", "C10", "C11", "C16"}},
 }
 
 var wsRe = regexp.MustCompile(`\s+`)
@@ -115,6 +133,22 @@ func checkQueries(c *Check) {
 			}
 		}
 		c.Req(len(miss) == 0 && len(hit) == 0, "mysql.DefaultQueries", "internal/mysql/queries.go", "query:"+q.Name, "the statement does what its name says (variables, values, aliases and predicates; equivalent spellings accepted)", fmt.Sprintf("text %q; missing %v; forbidden %v", t, miss, hit))
+		if want, ok := setGlobals[q.Name]; ok {
+			got := map[string]string{}
+			if strings.HasPrefix(t, "set global ") {
+				for _, m := range assignRe.FindAllStringSubmatch(strings.TrimPrefix(t, "set global "), -1) {
+					got[strings.TrimPrefix(strings.TrimSpace(m[1]), "@@")] = strings.TrimSpace(m[2])
+				}
+			}
+			okSet := len(got) == len(want)
+			for v, re := range want {
+				val, has := got[v]
+				if !has || !regexp.MustCompile("^("+re+")$").MatchString(val) {
+					okSet = false
+				}
+			}
+			c.Req(okSet, "mysql.DefaultQueries", "internal/mysql/queries.go", "query:"+q.Name+":assigns", "the statement assigns exactly its variables, with their values", fmt.Sprintf("assigns %v, expected %v", got, want))
+		}
 	}
 	c.Req(n >= 1, "mysql.DefaultQueries", "-", "query:lines", "statement lines for this property", "")
 	checkAliasTags(c, texts)
@@ -157,9 +191,11 @@ func checkAliasTags(c *Check, texts map[string]string) {
 			if !ok {
 				continue
 			}
+			// column labels are matched case-sensitively by the row scanner (and the handles are opened in "unsafe" mode,
+			// where a column without a destination is silently dropped and the field keeps its zero value)
 			aliases := map[string]bool{}
 			for _, m := range aliasRe.FindAllStringSubmatch(text, -1) {
-				aliases[strings.ToLower(m[1])] = true
+				aliases[m[1]] = true
 			}
 			var missing []string
 			for i := 0; i < st.NumFields(); i++ {
@@ -167,7 +203,7 @@ func checkAliasTags(c *Check, texts map[string]string) {
 				if tag == "" {
 					continue
 				}
-				if !aliases[strings.ToLower(tag)] {
+				if !aliases[tag] {
 					missing = append(missing, tag)
 				}
 			}
